@@ -257,6 +257,36 @@ def check_case(variant, names, pkeys, data_mode, preserve, res):
                                     clause = "node-variable-overridden"
                         v = (clause, f"{rel}: provisioned {got[rel][:300]!r}, expected {exp[rel][:300]!r}")
                         break
+            if v is None and data_mode == "default":
+                # a second node on the same host is provisioned from the SAME car object (mechanic.create loads the car once per host): its
+                # configuration is its own, and the composed car is still what the team repository defines
+                root1 = os.path.join(work, "node1")
+                inst1 = provisioner.ElasticsearchInstaller(car, None, "rally-node-1", "rally-benchmark", root1, ["10.0.0.7"], ["rally-node-0", "rally-node-1"], "10.0.0.7", 39201)
+                cfg1 = provisioner.BareProvisioner(inst1, [], distribution_version="8.0.0").prepare({"elasticsearch": dist_archive()})
+                want_data1 = [params["data_paths"]] if params.get("data_paths") else [os.path.join(cfg1.binary_path, "data")]
+                eff1 = dict(merged)
+                eff1.update({"cluster_name": "rally-benchmark", "node_name": "rally-node-1", "network_host": "10.0.0.7", "node_ip": "10.0.0.7",
+                             "http_port": "39201", "transport_port": "39301"})
+                exp1 = {}
+                for b in bases:
+                    tdir = os.path.join(troot, "cars", "v1", b, "templates")
+                    for dp, _dn, fn in os.walk(tdir):
+                        for f in sorted(fn):
+                            rel = os.path.relpath(os.path.join(dp, f), tdir)
+                            raw = open(os.path.join(dp, f), "rb").read()
+                            if os.path.splitext(f)[1] in (".ini", ".txt", ".json", ".yml", ".yaml", ".options", ".properties"):
+                                exp1[rel] = exp1.get(rel, b"") + render(raw.decode("utf-8"), eff1).encode("utf-8")
+                            else:
+                                exp1[rel] = raw
+                got1 = {k: val for k, val in snapshot(cfg1.binary_path).items() if k.startswith("config/") and val is not None}
+                if cfg1.data_paths != want_data1:
+                    v = ("second-node-data-paths", f"second node on the host (same car object) has data paths {cfg1.data_paths}, expected {want_data1}")
+                elif dict(car.variables) != merged:
+                    diff = {k: (car.variables.get(k), merged.get(k)) for k in set(car.variables) | set(merged) if car.variables.get(k) != merged.get(k)}
+                    v = ("car-changed-by-provisioning", f"variables of the composed car after provisioning two nodes (got, expected): {diff}")
+                elif got1 != exp1:
+                    rel = next((r for r in sorted(set(got1) | set(exp1)) if got1.get(r) != exp1.get(r)), None)
+                    v = ("second-node-rendered-file", f"{rel}: provisioned {(got1.get(rel) or b'')[:300]!r}, expected {(exp1.get(rel) or b'')[:300]!r}")
             if v is None and data_mode == "default" and not preserve:
                 # the same car through the Docker provisioner: same templates, same precedence, Rally's container-side variables win
                 droot = os.path.join(work, "dnode0")
